@@ -257,3 +257,25 @@ def run_mismatch_cases(pid, requires, case_exprs, chunk=300, jobs=16, defs=""):
             continue
         mism.extend(parse_zlist(blocks[-1].split(":")[0]))
     return mism, errors, len(files)
+
+
+def coqchk(pid, timeout=1800):
+    """Independent re-check of the compiled Props.vo and everything it depends on (thorough tier).
+    Returns dict(ok, axioms=[...], unsafe=[...], wall_s, log_tail)."""
+    rc, out, dt = _run(["coqchk", "-o", "-silent", "-Q", ".", LOGICAL, "%s.%s.Props" % (LOGICAL, pid)], COQ, timeout)
+    axioms, unsafe, sec = [], [], None
+    for line in out.split("\n"):
+        t = line.strip()
+        if t.startswith("* "):
+            sec = t
+            if "<none>" not in t and ("type-in-type" in t or "unsafe" in t or "positivity" in t) and t.endswith(":"):
+                pass
+            continue
+        if not t:
+            continue
+        if sec and sec.startswith("* Axioms"):
+            axioms.append(t)
+        elif sec and ("type-in-type" in sec or "unsafe" in sec or "positivity" in sec) and "<none>" not in sec:
+            unsafe.append(sec + " " + t)
+    ok = rc == 0 and not unsafe
+    return dict(ok=ok, axioms=axioms, unsafe=unsafe, wall_s=dt, log_tail=out[-1500:])
